@@ -8,6 +8,7 @@ from ..frontend import AnalysisError, loc, normalise
 from ..values import *      # noqa
 from .. import contexts as C
 from ..core import St, PathEnd
+from ..d1rules import blocked
 from .. import winsym as W
 
 PROP = 'C20'
@@ -51,6 +52,7 @@ def run(prog, rep, tier='quick'):
     rep.rule('finite', 'no division by a grid that vanishes at the centre sample')
     rep.rule('factory-params', 'for every name the keywords create_window accepts (abstract call per keyword) == the documented shape parameters, each a keyword of its generator')
     rep.rule('forwarding', 'create_window(N, name, p=v) calls the generator with p=v; unknown keywords raise')
+    rep.rule('closed-form-ends', 'window_tukey(N, r=0) is all ones and window_tukey(N, r=1) is the Hann generator\'s result (abstract call with the literal ratio)')
     rep.rule('window-object', 'Window.data is the factory result; Window.enbw has scaling degree 0 and size signature N')
     rep.trusted += ['numpy.hamming/hanning/bartlett/kaiser, scipy chebwin: N real symmetric samples, maximum 1 at the centre of an odd window',
                     'cos/sin reflection identities at multiples of pi', 'elementwise functions preserve reflection symmetry']
@@ -268,6 +270,40 @@ def run(prog, rep, tier='quick'):
             rep.proved('window-object', 'window.Window', 'N', 'Window.N is the requested length', where)
         else:
             rep.violation('window-object', 'window.Window', 'N', 'Window.N is not the requested length', where)
+    # ---------------- Tukey at the ends of its taper ratio: r = 0 is the rectangular window, r = 1 the Hann window (the general
+    # three-piece formula divides by r and is not evaluated there, so both ends are separate branches of the generator)
+    try:
+        ftk = prog.func('window', 'window_tukey')
+    except Exception:
+        ftk = None
+    if ftk is not None:
+        for rv, what in ((0, 'rectangular'), (1, 'hann')):
+            itp = C.new_interp(prog, summaries={})
+            st_ = St({}, {})
+            try:
+                out = itp.call_function(ftk, [C.symint('Nw', 3, 'N')], {'r': Const(rv)}, st_, ftk.node)
+            except PathEnd:
+                out = None
+            if blocked(rep, 'closed-form-ends', ftk.qname, 'r=%d' % rv, itp):
+                continue
+            on = out if isinstance(out, Num) else None
+            ones_ = on is not None and on.fill == 1
+            cos_ = sorted(q_ for q_ in itp.trace if q_ in ('window.window_hann', 'window.window_hanning', 'window.window_cosine',
+                                                          'window.window_hamming', 'window._coeff4', 'window._kaiser'))
+            if rv == 0:
+                if ones_ or 'window.window_rectangle' in itp.trace:
+                    rep.proved('closed-form-ends', ftk.qname, 'r=0', 'all ones (rectangular)', loc(ftk.mod, ftk.node))
+                elif cos_:
+                    rep.violation('closed-form-ends', ftk.qname, 'r=0', 'a taper ratio of 0 means no tapered part at all: the window is '
+                                  'rectangular (all ones), but this branch returns the result of %s' % cos_[0], loc(ftk.mod, ftk.node))
+                else:
+                    rep.undecided('closed-form-ends', ftk.qname, 'r=0', 'result is not recognisably all ones', loc(ftk.mod, ftk.node))
+            else:
+                if 'window.window_hann' in itp.trace or 'window.window_hanning' in itp.trace:
+                    rep.proved('closed-form-ends', ftk.qname, 'r=1', 'the Hann generator', loc(ftk.mod, ftk.node))
+                elif ones_ or 'window.window_rectangle' in itp.trace:
+                    rep.violation('closed-form-ends', ftk.qname, 'r=1', 'a taper ratio of 1 makes the whole window one cosine lobe (the '
+                                  'Hann window), but this branch returns all ones', loc(ftk.mod, ftk.node))
     rep.analysed['window_names'] = sorted(table)
     rep.floor('window names', n_names, 29)
     rep.floor('factory parameter rows', n_par, 10)
